@@ -9,6 +9,7 @@ var verifHarnesses = map[string]func(){
 	"VerifMul":       VerifMul,
 	"VerifQuo":       VerifQuo,
 	"VerifAbsNeg":    VerifAbsNeg,
+	"VerifDivInt":    VerifDivInt,
 	"VerifCmp":       VerifCmp,
 	"VerifQuantize":  VerifQuantize,
 	"VerifCeilFloor": VerifCeilFloor,
